@@ -187,11 +187,13 @@ def r1_positions(repo):
         g_ = cfg_of(f.node)
         one = bool(loops) and not g_.path_exists_avoiding(g_.node(loops[0].body[0]), g_.node(loops[0]),
                                                           [g_.node(a) for a in apps]) if loops else False
-        root_ok = src(st[0].targets[0].value) == e2 and any(
-            isinstance(d[1], ast.Call) and call_name(d[1]) == "deepcopy"
-            for d in g_.defs_reaching(e2, st[0]))
+        # the list is installed on a deep copy of the constructor (whatever the copy is called) and that copy is returned
+        root = src(st[0].targets[0].value)
+        rdefs = g_.defs_reaching(root, st[0]) if isinstance(st[0].targets[0].value, ast.Name) else []
+        root_ok = bool(rdefs) and all(isinstance(d[1], ast.Call) and call_name(d[1]) == "deepcopy" and d[1].args and
+                                      src(d[1].args[0]) == e2 for d in rdefs)
         ret = f.node.body[-1]
-        ok = lp_ok and sub_ok and pass_ok and one and root_ok and isinstance(ret, ast.Return) and src(ret.value) == e2
+        ok = lp_ok and sub_ok and pass_ok and one and root_ok and isinstance(ret, ast.Return) and src(ret.value) == root
         msg = ("every supertype of the constructor (unsliced) is visited, parameterized ones are rebuilt with "
                "substitute_type_args(t, type_map) - two arguments, default condition -, the list is installed on the deep copy that is returned: "
                "loop=%s substituted=%s others-passed=%s one-per-iteration=%s installed-on-copy=%s"
